@@ -59,6 +59,7 @@ type Slice struct {
 type SymStr struct {
 	b      []Value // each: uint64 (byte) or *Term (w=8)
 	opaque bool
+	tmpl   *strTemplate // opaque string with known skeleton (see tmplstr.go)
 }
 
 type Iface struct {
